@@ -55,7 +55,8 @@ def lattice_spec(draw):
         "regions": draw(st.integers(1, 4)),
         "depth": draw(st.sampled_from([1, 2, 3, 3, 4, 4])),
         "scale_exp": k,
-        "origin": [draw(st.integers(-40, 40)), draw(st.integers(-40, 40))],
+        # in coarse cells (10 lattice units): up to ~1e5 times the size of the drawing away from the origin
+        "origin": [draw(st.one_of(st.integers(-40, 40), st.sampled_from([1000, -30000, 2**20]))), draw(st.one_of(st.integers(-40, 40), st.sampled_from([-2000, 15000, -(2**19)])))],
     }
 
 
